@@ -229,6 +229,11 @@ def gen_case(rng, cid, big=False):
             d["porder"] = 0
             if kind == "poly":
                 kind = "random"
+    return fill_data(rng, cid, dims, kind, flags)
+
+def fill_data(rng, cid, dims, kind, flags):
+    """data cells, weights and values of a case whose dimensions are fixed (shared by the random and the structured family)"""
+    nd = len(dims)
     # data cells
     shape = [len(d["coords"]) for d in dims]
     cells = [[]]
@@ -274,6 +279,7 @@ def gen_case(rng, cid, big=False):
             entries.append([list(c), rng.rint(-64, 64) / 16.0 if kind == "random" else v, rng.rint(1, 16) / 8.0])
     if not entries:
         entries.append([[0] * nd, 1.0, 1.0])
+        kind = "random"          # the stand-in value is not spline/polynomial data (with 1-2 cells the density draw can drop them all)
     if rng.chance(0.5):
         rng.shuffle(entries)
     case = {"id": cid, "flags": flags, "dims": dims, "entries": entries, "kind": kind}
@@ -291,6 +297,224 @@ def make_variant(rng, c):
     rng.shuffle(ents)
     v["variant_of"] = c["id"]
     return v
+
+# ------------------------------------------------------------------------------------------------
+# the STRUCTURED family (round 3).  The random family above never produced an axis with fewer than max(order+1, 2) basis
+# functions, a penalty order equal to the number of basis functions, two identical axes, a data grid of length 1 or very
+# unequal axis lengths - classes at which the code and the proofs split cases:
+#   * calc_penalty: the difference matrix has nsplines - porder rows: NO row when porder == nsplines (DtD is the n x n ZERO matrix,
+#     for one basis function the 1x1 zero matrix), kronecker_product with 1x1 factors (an axis with one basis function), the left
+#     fold over the axes (the axis in the first / a middle / the last position);
+#   * fit.h: a penalty order above the spline order or the number of basis functions is refused only when the smoothing of that
+#     dimension is non-zero (with zero smoothing the order is never looked at);
+#   * glamfit_complex: one basis / box product per axis (what if two axes are the same?), slicemultiply's mixed-radix walk with a
+#     range of 1 or with very different ranges;
+#   * the theorems (C09_glam_is_kron, C09_penalty_is_DtD, C09_fit_system_is_normal_system) have NO hypothesis on nsplines, on the
+#     number of abscissae or on the penalty order: the model must agree on all of these.
+# A table with fewer than 2*order+2 knots in some dimension (nsplines <= order) has an empty fully supported range: it cannot be
+# evaluated by ndsplineeval, but the fit's statement (normal system, minimiser of the objective) does not depend on that and is
+# compared as for every other case; only the `poly' kind (which speaks about the fully supported range) is not used there.
+def distinct_knots(rng, nk):
+    t = rng.rint(-12, 12) / 4.0
+    style = rng.choice(["uniform", "irregular", "irregular", "irregular"])
+    step0 = rng.choice([0.5, 1.0, 2.0])
+    knots = []
+    for i in range(nk):
+        knots.append(t)
+        t += step0 if style == "uniform" else rng.choice([0.25, 0.5, 0.75, 1.0, 1.25, 2.0, 3.5])
+    return knots
+
+def pick_coords(rng, knots, order, nspl, npts, g=32, plain=False):
+    """npts abscissae (exact doubles on a 1/g grid): first one strictly inside the support of each basis function (as many as fit
+    into npts), taken in the fully supported range when that range is not empty, then extras of every class"""
+    lo, hi = knots[order], knots[nspl]
+    evaluable = lo < hi
+    pts = []
+    order_j = list(range(nspl))
+    rng.shuffle(order_j)
+    for j in order_j[:npts]:
+        a, b = knots[j], knots[j + order + 1]
+        if evaluable:
+            a, b = max(a, lo), min(b, hi)
+        na, nb = int(math.ceil(a * g)), int(math.floor(b * g))
+        cands = [k / g for k in range(na, nb + 1) if a <= k / g < b and (k / g) not in pts]
+        inner = [x for x in cands if x > a] or cands
+        if inner:
+            pts.append(rng.choice(inner))
+    tries = 0
+    while len(pts) < npts and tries < 60:
+        tries += 1
+        cls = "inside" if plain else rng.choice(["inside", "inside", "inside", "knot", "outside", "upper"])
+        if cls == "inside":
+            x = rng.rint(int(math.ceil(knots[0] * g)), int(math.floor(knots[-1] * g))) / g
+        elif cls == "knot":
+            x = rng.choice(knots)
+        elif cls == "upper":
+            x = rng.choice(knots[nspl:] + [knots[-1]])
+        else:
+            x = rng.choice([knots[0] - 0.5, knots[-1] + 0.25])
+        if x in pts and rng.chance(0.8):
+            continue
+        pts.append(x)
+    if rng.chance(0.6):
+        pts.sort()
+    else:
+        rng.shuffle(pts)
+    return pts
+
+def dim_fixed(rng, order, nspl, porder, smooth, npts, plain=False):
+    knots = distinct_knots(rng, nspl + order + 1)
+    return {"order": order, "porder": porder, "smooth": smooth, "knots": knots, "coords": pick_coords(rng, knots, order, nspl, npts, plain=plain)}
+
+def filler_dim(rng, maxspl, maxpts):
+    """an ordinary small axis next to the special one(s)"""
+    order = rng.choice([0, 1, 1, 2, 2, 3])
+    nspl = rng.rint(max(order + 1, 2), max(maxspl, order + 1, 2))
+    porder = rng.rint(0, order)
+    smooth = rng.choice([0.0, 2.0 ** -10, 1.0, 1.0, 2.0 ** 10])
+    return dim_fixed(rng, order, nspl, porder, smooth, rng.rint(nspl, max(nspl, maxpts)))
+
+NONZERO_SMOOTH = [2.0 ** -10, 1.0, 1.0, 4.0, 2.0 ** 10]
+POSITIONS = [(1, 0), (2, 0), (2, 1), (3, 0), (3, 1), (3, 2)]       # (ndim, position of the special axis)
+
+def struct_plan(rng, tier):
+    """the list of structured cases of one run: the small-axis classes are ENUMERATED (every legal (order, penalty order) of an
+    axis with one and with two basis functions x zero / non-zero smoothing x every axis position of a 1-, 2- and 3-dimensional fit),
+    the other classes are drawn"""
+    plan = []
+    for nspl in (1, 2):
+        for order in (0, 1, 2, 3):
+            for porder in range(0, min(order, nspl) + 1):
+                for sm in (False, True):
+                    for nd, pos in POSITIONS:
+                        plan.append({"cls": "small-axis", "nspl": nspl, "order": order, "porder": porder, "smooth_on": sm, "ndim": nd, "pos": pos})
+    # a penalty order beyond the legal range (order+1, or nsplines+1) where the smoothing is zero: accepted by fit(), never used
+    for nspl in (1, 2, 3):
+        for order in (0, 1, 2):
+            for nd, pos in POSITIONS[1:]:
+                plan.append({"cls": "porder-beyond", "nspl": nspl, "order": order, "porder": rng.choice([order + 1, nspl + 1, max(order, nspl) + 1]), "ndim": nd, "pos": pos})
+    reps = 1 if tier == "quick" else 6
+    for _ in range(reps):
+        for near in (None, None, "knot", "abscissa", "order", "porder-smooth"):
+            for nd, pair in ((2, (0, 1)), (3, (0, 1)), (3, (0, 2)), (3, (1, 2))):
+                plan.append({"cls": "twin", "near": near, "ndim": nd, "pair": pair})
+        for nd, pos in POSITIONS:
+            for nspl in (1, 2, 3):
+                plan.append({"cls": "single-abscissa", "nspl": nspl, "ndim": nd, "pos": pos})
+        for nd, pos in POSITIONS[1:]:
+            for short in (1, 2):
+                plan.append({"cls": "unequal", "short": short, "ndim": nd, "pos": pos})
+    return plan
+
+def gen_case_struct(rng, cid, desc):
+    nd = desc["ndim"]
+    cap = {1: (5, 6), 2: (4, 5), 3: (3, 4)}[nd]
+    dims = [filler_dim(rng, cap[0], cap[1]) for _ in range(nd)]
+    kind = rng.choice(["random", "random", "spline"])
+    cls = desc["cls"]
+    if cls == "small-axis":
+        nspl, order, porder = desc["nspl"], desc["order"], desc["porder"]
+        sm = rng.choice(NONZERO_SMOOTH) if desc["smooth_on"] else 0.0
+        dims[desc["pos"]] = dim_fixed(rng, order, nspl, porder, sm, rng.choice([1, nspl, nspl + 1, nspl + 3]))
+        if desc["smooth_on"] and porder != nspl:
+            kind = "random"            # (the `spline' kind would zero the smoothing this class is about)
+    elif cls == "porder-beyond":
+        dims[desc["pos"]] = dim_fixed(rng, desc["order"], desc["nspl"], desc["porder"], 0.0, rng.rint(desc["nspl"], desc["nspl"] + 2))
+    elif cls == "twin":
+        i, j = desc["pair"]
+        order = rng.choice([0, 1, 2, 3])
+        nspl = rng.rint(1, 4 if nd == 2 else 3)
+        a = dim_fixed(rng, order, nspl, rng.rint(0, min(order, nspl)), rng.choice([0.0, 1.0, 2.0 ** -10, 4.0]), rng.rint(nspl, nspl + 2))
+        b = json.loads(json.dumps(a))
+        near = desc["near"]
+        if near == "knot":
+            kn = b["knots"]
+            q = rng.below(len(kn))
+            lo = kn[q - 1] if q > 0 else kn[q] - 1.0
+            hi = kn[q + 1] if q + 1 < len(kn) else kn[q] + 1.0
+            kn[q] = rng.choice([(lo + kn[q]) / 2, (kn[q] + hi) / 2, nextafter(kn[q], hi)])      # still sorted and distinct
+        elif near == "abscissa":
+            q = rng.below(len(b["coords"]))
+            b["coords"][q] = rng.choice([nextafter(b["coords"][q], b["knots"][-1] + 1.0), b["coords"][q] + 1.0 / 64])
+        elif near == "order" and order >= 1:
+            # same knots and grid, order one lower (one more basis function)
+            b["order"] = order - 1
+            b["porder"] = min(b["porder"], b["order"])
+        elif near == "porder-smooth":
+            b["porder"] = rng.rint(0, min(order, nspl))
+            b["smooth"] = rng.choice([0.0, 1.0, 2.0 ** 10])
+        dims[i], dims[j] = a, b
+    elif cls == "single-abscissa":
+        nspl = desc["nspl"]
+        order = rng.choice([0, 1, 2, 3])
+        porder = rng.rint(0, min(order, 1))
+        sm = rng.choice(NONZERO_SMOOTH) if nspl > 1 else rng.choice([0.0] + NONZERO_SMOOTH)
+        dims[desc["pos"]] = dim_fixed(rng, order, nspl, porder, sm, 1, plain=True)
+    elif cls == "unequal":
+        # one long axis, the others with `short' basis functions (1 or 2)
+        order = rng.choice([1, 2, 3])
+        nlong = rng.rint(10, 16) if nd == 2 else rng.rint(8, 12)
+        for k in range(nd):
+            o = rng.choice([0, 1, 2])
+            po = rng.rint(0, min(o, desc["short"]))
+            dims[k] = dim_fixed(rng, o, desc["short"], po, rng.choice([0.0, 1.0, 2.0 ** -10]), rng.rint(1, 3))
+        dims[desc["pos"]] = dim_fixed(rng, order, nlong, rng.rint(0, order), rng.choice([0.0, 2.0 ** -10, 1.0]), nlong + rng.rint(0, 4), plain=True)
+    if kind == "spline":
+        # data generated from a spline on the same knots are reproduced when there is no penalty: smoothing is zeroed, except
+        # on an axis whose penalty order equals its number of basis functions - there the penalty is identically zero
+        for d in dims:
+            if not (d["porder"] == nspl_of(d) and d["porder"] <= d["order"]):
+                d["smooth"] = 0.0
+    flags = 0
+    if len(set(d["smooth"] for d in dims)) == 1 and rng.chance(0.4):
+        flags |= 1
+    if len(set(d["porder"] for d in dims)) == 1 and rng.chance(0.4):
+        flags |= 2
+    c = fill_data(rng, cid, dims, kind, flags)
+    c["family"] = cls
+    return c
+
+def penalty_callable(d):
+    """calc_penalty can be called for this dimension (the harness and the model driver call it directly to compare the matrices):
+    beyond these limits divided_diffs writes outside its scratch arrays / the row count nsplines - porder wraps around, and fit()
+    reaches calc_penalty only within them (it refuses the arguments when the smoothing is non-zero, skips the term when it is zero)"""
+    return d["porder"] <= d["order"] and d["porder"] <= nspl_of(d)
+
+def axis_classes(c):
+    """the structural classes a case falls into, MEASURED on the case (not taken from the plan): for the coverage histogram"""
+    dims = c["dims"]
+    nd = len(dims)
+    out = []
+    ns = [nspl_of(d) for d in dims]
+    for k, d in enumerate(dims):
+        pos = "only" if nd == 1 else "first" if k == 0 else "last" if k == nd - 1 else "middle"
+        n = ns[k]
+        if n <= 2:
+            out.append("axis with %d basis function%s, %s position, penalty order %d%s, %s smoothing" % (
+                n, "" if n == 1 else "s", pos, d["porder"], " (= nsplines: difference matrix without rows)" if d["porder"] == n else "",
+                "non-zero" if d["smooth"] != 0.0 else "zero"))
+        if d["porder"] == n and d["smooth"] != 0.0:
+            out.append("penalty order = nsplines with non-zero smoothing (zero penalty term), %s position" % pos)
+        if not penalty_callable(d):
+            out.append("penalty order beyond order/nsplines with zero smoothing (never used by fit)")
+        if len(d["coords"]) == 1:
+            out.append("data grid of length 1, %s position, %d basis function%s" % (pos, n, "" if n == 1 else "s"))
+        if len(d["knots"]) < 2 * d["order"] + 2:
+            out.append("axis with fewer than 2*order+2 knots (empty fully supported range: table not evaluable, fit statement compared)")
+    for i in range(nd):
+        for j in range(i + 1, nd):
+            a, b = dims[i], dims[j]
+            same = [a["order"] == b["order"], a["knots"] == b["knots"], a["coords"] == b["coords"]]
+            if all(same):
+                out.append("twin axes (same order, knots, abscissae) %d,%d of %d%s" % (i, j, nd, "" if (a["porder"], a["smooth"]) == (b["porder"], b["smooth"]) else ", penalty differs"))
+            elif len(a["knots"]) == len(b["knots"]) and len(a["coords"]) == len(b["coords"]) and a["order"] == b["order"] and \
+                    sum(x != y for x, y in zip(a["knots"], b["knots"])) + sum(x != y for x, y in zip(a["coords"], b["coords"])) == 1:
+                out.append("near-twin axes (one %s differs) %d,%d of %d" % ("knot" if a["knots"] != b["knots"] else "abscissa", i, j, nd))
+            elif a["knots"] == b["knots"] and a["coords"] == b["coords"]:
+                out.append("near-twin axes (same knots and abscissae, order differs) %d,%d of %d" % (i, j, nd))
+    if nd >= 2 and max(ns) >= 5 * max(1, min(ns)):
+        out.append("very unequal axis lengths (max/min nsplines >= 5)")
+    return out
 
 # ------------------------------------------------------------------------------------------------
 # running both sides
@@ -628,7 +852,10 @@ def analyse_inner(args):
                 what, k // ncol, k % ncol, float(im[k]), float(ex[k]), float(t)), tag=tag)
     for k in range(nd):
         cmp_dense("basis.%d" % k, iout.get("basis.%d" % k), mout.get("basis.%d" % k), 64, "bsplinebasis of dimension %d" % k)
-        cmp_dense("pen.%d" % k, iout.get("pen.%d" % k), mout.get("pen.%d" % k), 4096, "calc_penalty of dimension %d" % k)
+        if penalty_callable(c["dims"][k]):
+            cmp_dense("pen.%d" % k, iout.get("pen.%d" % k), mout.get("pen.%d" % k), 4096, "calc_penalty of dimension %d" % k)
+        elif ("pen.%d" % k) in iout or ("pen.%d" % k) in mout:
+            fail("C09:corr:pen:unexpected", "calc_penalty output present for a penalty order outside its domain (dimension %d)" % k)
     for tag in ("Farr", "Rarr"):
         it, mt = iout.get(tag), mout.get(tag)
         if it is None or mt is None:
@@ -740,6 +967,16 @@ def run(info, out):
             base = gen_case(rng, "g%d" % i, big=(tier == "thorough" and i % 250 == 0))
             cases.append(base)
             cases.append(make_variant(rng, base))
+        # the structured family (own random stream: the random family of a seed stays what it was)
+        rs = Rng(seed).fork("C09-structured")
+        plan = struct_plan(rs, tier)
+        nstruct = 0
+        for i, desc in enumerate(plan):
+            sc = gen_case_struct(rs.fork("s%d" % i), "s%d" % i, desc)
+            cases.append(sc)
+            nstruct += 1
+            if i % 4 == 0:
+                cases.append(make_variant(rs.fork("v%d" % i), sc))
         suspicious = (not info["proof_ok"])
         results = process(cases, exe_i, exe_m, pool, out)
         if suspicious or any(r["fails"] for r in results.values()):
@@ -748,6 +985,9 @@ def run(info, out):
             for i in range(nbase * (10 if tier == "quick" else 2)):
                 base = gen_case(rng, "x%d" % i)
                 extra.append(base)
+            for rep in range(5 if tier == "quick" else 2):
+                for i, desc in enumerate(struct_plan(rs.fork("xplan%d" % rep), tier)):
+                    extra.append(gen_case_struct(rs.fork("x%d_%d" % (rep, i)), "xs%d_%d" % (rep, i), desc))
             results2 = process(extra, exe_i, exe_m, pool, out)
             cases += extra
             results.update(results2)
@@ -766,7 +1006,7 @@ def run(info, out):
         # ---- coverage
         ok = [c for c in cases if results.get(c["id"], {}).get("status") == "ok"]
         hashes = set(case_hash(c) for c in ok)
-        dist = {"ndim": {}, "order": {}, "porder": {}, "smooth": {}, "kind": {}, "ncoef": {}, "status": {}, "flags": {}, "entries": {}, "max_knot_multiplicity": {}, "illposed_with_repeated_knots": {}, "abscissae_at_or_above_upper_end": {}}
+        dist = {"structural_classes": {}, "family": {}, "ndim": {}, "order": {}, "porder": {}, "smooth": {}, "kind": {}, "ncoef": {}, "status": {}, "flags": {}, "entries": {}, "max_knot_multiplicity": {}, "illposed_with_repeated_knots": {}, "abscissae_at_or_above_upper_end": {}}
         def bump(k, v):
             dist[k][str(v)] = dist[k].get(str(v), 0) + 1
         for c in cases:
@@ -776,6 +1016,9 @@ def run(info, out):
                 bump("illposed_with_repeated_knots", st)      # counted, not flagged: outside the property
         for c in ok:
             bump("ndim", len(c["dims"])); bump("kind", c["kind"]); bump("flags", c["flags"])
+            bump("family", c.get("family", "random"))
+            for cl in axis_classes(c):
+                bump("structural_classes", cl)
             n = results[c["id"]]["n"]
             bump("ncoef", "<=8" if n <= 8 else "<=24" if n <= 24 else "<=64" if n <= 64 else ">64")
             total = 1
@@ -798,11 +1041,17 @@ def run(info, out):
             "rule": ("a case is one well-posed fitting problem (exact normal matrix positive definite, decided exactly) with 1..3 dimensions, orders 0..3, penalty orders 0..order, "
                      "irregular dyadic knots (a fifth of the dimensions of order >= 1 with a run of 2..order+1 repeated knots), up to 8 abscissae per dimension (inside, on knots, on knots at/above knots[nsplines] and on the last knot, in the margins, outside the support), dense or sparse cells, duplicate cells, "
                      "zero and positive dyadic weights, smoothing in {0, 2^-10, 1, 2^10} (single or per dimension); every case is run through both entry points (C++ fit, C splinetable_glamfit) "
-                     "and is followed by a permuted + zero-weight-padded variant; non-trivial = well-posed with at least 2 coefficients; distinct by the full input text"),
+                     "and is followed by a permuted + zero-weight-padded variant; non-trivial = well-posed with at least 2 coefficients; distinct by the full input text. "
+                     "STRUCTURED family (round 3; input_distribution.family / .structural_classes give the measured counts per class): ENUMERATED every run - an axis with one and with two basis functions "
+                     "(nknots = order+2, order+3) x every legal (order 0..3, penalty order 0..min(order, nsplines)), penalty order = nsplines (difference matrix without rows) included, x zero / non-zero smoothing "
+                     "x every axis position of a 1-, 2- and 3-dimensional fit; a penalty order beyond order / nsplines where the smoothing is zero; DRAWN - twin axes (same order, knots, abscissae) and near-twins "
+                     "(one knot / one abscissa / the order / only the penalty differs) for every pair of axes, a data grid of length 1 in each position, one long axis (8..16 basis functions) next to axes with 1-2; "
+                     "tables with fewer than 2*order+2 knots in a dimension cannot be evaluated but the fit statement (normal system, minimiser, objective) is compared all the same (the `poly' kind is not used there)"),
             "samples": [case_public(c) for c in ok[:2]],
             "traces_validated_against_impl": len(ok),
             "input_distribution": dist,
             "corpus_cases": ncorpus,
+            "structured_cases": nstruct,
             "condition_numbers": {"median": conds[len(conds) // 2] if conds else None, "max": conds[-1] if conds else None},
             "relative_tolerance": {"median": tols[len(tols) // 2] if tols else None, "max": tols[-1] if tols else None},
             "tolerances": ("coefficients: |c_impl_i - c*_i| <= 2^-24 |c*_i| + 32(n+8) 2^-53 ||A^-1||_inf (||A||_inf |c*|_inf + |r|_inf), norms exact; "
